@@ -1,4 +1,66 @@
-import LZ4V.Spec.Frame
-/-! # C20 — property theorems (in progress) -/
+import LZ4V.Properties.C03
+/-!
+# C20 — the lz4file API round-trips content of every length (write path over the frame state machine)
+
+`LZ4F_writeOpen` = `begin`; `LZ4F_write(buf, size)` = one `LZ4F_compressUpdate` per chunk of at most `maxWriteSize` bytes;
+`LZ4F_writeClose` = `LZ4F_compressEnd`.  The read path is decided by correspondence (every content length 0..40, block
+multiples ± 1, any sequence of read sizes) and by the independent frame parser.
+-/
 namespace LZ4V.C20
+open LZ4V.Model.FrameC
+
+theorem chunks_flatten (maxW : Nat) : ∀ (fuel : Nat) (w : List UInt8), w.length < fuel → (chunks maxW fuel w).flatten = w := by
+  intro fuel
+  induction fuel with
+  | zero => intro w h; omega
+  | succ f ih =>
+    intro w hf
+    unfold chunks
+    by_cases hw : w = []
+    · rw [if_pos hw, hw]; rfl
+    · rw [if_neg hw]
+      by_cases hm : 0 < maxW
+      · rw [if_pos hm]
+        have hlen : 0 < w.length := List.length_pos_iff.mpr hw
+        rw [List.flatten_cons, ih (w.drop maxW) (by rw [List.length_drop]; omega), List.take_append_drop]
+      · rw [if_neg hm]; simp
+
+theorem fed_updates (l : List (List UInt8)) : fed (l.map (fun ch => Op.update ch false)) = l.flatten := by
+  induction l with
+  | nil => rfl
+  | cons a t ih => simp [fed, ih]
+
+theorem fed_append (a b : List Op) : fed (a ++ b) = fed a ++ fed b := by
+  induction a with
+  | nil => rfl
+  | cons op t ih => cases op <;> simp [fed, ih]
+
+theorem fed_writeOps (maxW : Nat) (writes : List (List UInt8)) : fed (writeOps maxW writes) = writes.flatten := by
+  unfold writeOps
+  induction writes with
+  | nil => rfl
+  | cons w t ih =>
+    simp only [List.map_cons, List.flatten_cons, fed_append]
+    rw [ih, fed_updates, chunks_flatten maxW _ w (by omega)]
+
+/-- **one frame holding exactly the written bytes**, for ANY sequence of write sizes (including none at all and empty
+    writes) and any `maxWriteSize`: the blocks emitted between open and close concatenate to the concatenation of the writes -/
+theorem file_holds_written_bytes (bs maxW : Nat) (af : Bool) (hbs : 0 < bs) (writes : List (List UInt8)) (c' : Ctx) (blocks : List (List UInt8))
+    (hr : run (LZ4V.C03.afterBegin bs af) (writeOps maxW writes ++ [.finish]) = .ok (c', blocks)) :
+    blocks.flatten = writes.flatten ∧ c'.stage = 0 := by
+  have hops : ∀ op ∈ writeOps maxW writes, ∀ b a, op ≠ .begin b a := by
+    intro op hop b a h
+    unfold writeOps at hop
+    simp only [List.mem_flatten, List.mem_map] at hop
+    obtain ⟨l, ⟨w, _, hl⟩, hin⟩ := hop
+    rw [← hl, List.mem_map] at hin
+    obtain ⟨ch, _, hch⟩ := hin
+    rw [← hch] at h
+    cases h
+  obtain ⟨h1, _, h3⟩ := LZ4V.C03.finished_frame_holds_input bs af hbs (writeOps maxW writes) c' blocks hops hr
+  exact ⟨by rw [h1, fed_writeOps], h3⟩
+
+/-- non-vacuity: no write at all still yields a closed (empty) frame -/
+example : (run (LZ4V.C03.afterBegin 65536 false) (writeOps 65536 [] ++ [.finish])).toOption.map (fun r => (r.1.stage, r.2)) = some (0, []) := by decide
+
 end LZ4V.C20
